@@ -13,8 +13,7 @@ if len(sys.argv) > 1 and sys.argv[1] == "hygiene":
     print("\n".join(bad) or "clean")
     sys.exit(1 if bad else 0)
 targets = sys.argv[2:] if len(sys.argv) > 2 else []
-with coqrun.BuildLock():
-    ok, log, cmd, dt = coqrun.make(targets, timeout_s=int(os.environ.get("COQDEV_TIMEOUT", "1500")))
+ok, log, cmd, dt = coqrun.make(targets, timeout_s=int(os.environ.get("COQDEV_TIMEOUT", "900")))
 lines = [l for l in log.splitlines() if not l.startswith(("COQC", "COQDEP", "CLEAN"))]
 print("\n".join(lines[-60:]))
 print(("OK" if ok else "FAILED"), "%.1fs" % dt, cmd)
